@@ -26,6 +26,7 @@ pub mod c17;
 pub mod c18;
 pub mod c19;
 pub mod common;
+pub mod selftest;
 
 pub struct Check {
     pub parts: Vec<Box<dyn Part>>,
@@ -60,8 +61,8 @@ fn build(ctx: &Ctx) -> Option<Check> {
     })
 }
 
-pub fn selftest(_ctx: &Ctx) -> i32 {
-    0
+pub fn selftest(ctx: &Ctx) -> i32 {
+    selftest::run(ctx)
 }
 
 /// Replays every committed regression file of this property; returns the first failure.
